@@ -84,6 +84,15 @@ def corpus(rng, n):
             except Exception:  # noqa
                 continue
             out.append(('msg', (t, strict, rng.random() < .6)))
+            if rng.random() < .5:
+                # MSH-9 that names no structure of the MSH-12 version (no third component, misspelt, empty): the message is still built
+                # for the version the text declares (seed C17-h lost it on this path), with a segment longer than older versions define
+                lines = t.split('\r')
+                f = lines[0].split('|')
+                if len(f) > 11:
+                    f[8] = rng.choice(['ADT^A08', 'ADT^A01^ADT_A99', '', 'XXX', 'ADT^A01^'])
+                    extra = 'PID|1||7|||||' + '|' * rng.randrange(20, 32) + 'X'
+                    out.append(('msg', ('\r'.join(['|'.join(f)] + lines[1:] + [extra]), False, rng.random() < .5)))
         elif k == 2:
             fn = rng.choice(sorted(g.lib.FIELDS))
             ref = g.lib.FIELDS[fn]
